@@ -1,0 +1,20 @@
+//go:build verif
+// +build verif
+
+package bal_slb
+
+import (
+	"github.com/bfenetworks/bfe/bfe_balance/backend"
+)
+
+// VerifC07Backends returns the backends of the list in list order
+// (hook for the out-of-tree verification harness of C07/C08, build tag verif; add-only).
+func (brr *BalanceRR) VerifC07Backends() []*backend.BfeBackend {
+	brr.Lock()
+	defer brr.Unlock()
+	out := make([]*backend.BfeBackend, 0, len(brr.backends))
+	for _, b := range brr.backends {
+		out = append(out, b.backend)
+	}
+	return out
+}
